@@ -86,7 +86,9 @@ type Case struct {
 	RawEq bool `json:"equal_signs_in_values_sent_raw,omitempty"`
 }
 
-var junkPairs = []string{"junk=%zz", "%=1", "a=%", "x;y=1", "=", "", "%zz", "b=%4", "c=1;d=2", "e=%%", "=%"}
+var junkPairs = []string{"junk=%zz", "%=1", "a=%", "x;y=1", "=", "", "%zz", "b=%4", "c=1;d=2", "e=%%", "=%",
+	// other keys that look like the key under test: they are other keys
+	"k[]=7", "k%5B%5D=8", "k[0]=9", "K=10", "k.x=11", "kk=12", "k%20=13", "%20k=14", "k[]=15&k[]=16", "k_=17", "k-=18"}
 
 func unq(s string) string {
 	if s == "" {
